@@ -58,9 +58,12 @@ DResetParams == Step /\ dLoaded' = None /\ dRef' = None /\ dPrefix' = None /\ dS
                 /\ UNCHANGED <<cLoaded, cRef, cPrefix, frameDict, frameID, lastDecode>>
 
 \* the dictionary a decompression context will use for a frame naming id
-DDictFor(id) == IF dPrefix # None THEN dPrefix
+\* (with ZSTD_d_refMultipleDDicts a frame that names a dictionary of the set is decoded with it whatever else has been loaded,
+\* referenced or prefixed since: ZSTD_DCtx_selectFrameDDict runs whenever the context holds any dictionary)
+HoldsAny == dPrefix # None \/ dLoaded # None \/ dRef # None
+DDictFor(id) == IF multi /\ id # 0 /\ id \in dSet /\ HoldsAny THEN id
+                ELSE IF dPrefix # None THEN dPrefix
                 ELSE IF dLoaded # None THEN dLoaded
-                ELSE IF multi /\ id # 0 /\ id \in dSet THEN id
                 ELSE dRef
 
 \* decode the last frame: refused when the frame names an ID and the decoder's dictionary has another non-zero ID; otherwise the
